@@ -53,6 +53,13 @@ def wit_cast(A, B):
     return (f"package probe:cast;\ninterface zi {{\n  variant zv {{ ca({A}), cb({B}) }}\n"
             f"  vf: func(zqx: zv);\n}}\nworld zw {{ import zi; export zi; }}\n")
 
+def wit_flags(n):
+    fl = ", ".join(f"g{i}" for i in range(n))
+    return (f"package probe:flg;\ninterface zi {{\n  flags zf {{ {fl} }}\n  flat: func(zqx: zf) -> zf;\n}}\n"
+            f"world zw {{ import zi; export zi; }}\n")
+
+FLAG_SIZES = [8, 16, 32, 40]
+
 def hx(s):
     return s.encode().hex() if s else "-"
 
@@ -1388,6 +1395,24 @@ def extract_casts(lang, probe, files):
     return sites
 
 
+# ------------------------------------------------------------------ flags probes: well-formedness of the emitted statements
+
+def scan_flags(lang, n, files):
+    """FlagsLower / FlagsLift pieces are core-value conversions too; they are not modelled, but every single-line
+    statement that mentions them must at least be bracket-balanced (DESIGN F11).  -> [offending line]"""
+    bad = []
+    for fname, text in text_files(files).items():
+        if balanced(text):
+            continue
+        for line in text.split("\n"):
+            st = line.strip()
+            if not st or st.startswith(("//", "#|", "///")):
+                continue
+            single = re.match(r"[A-Za-z_\*@]", st) and st.endswith((")", ";")) and not st.endswith(("{", "(", ","))
+            if single and not balanced(st) and st.count(")") > st.count("("):
+                bad.append((fname, st))
+    return bad
+
 # ------------------------------------------------------------------ emitting the Lean tables
 
 VERIF = os.path.dirname(os.path.dirname(os.path.abspath(__file__)))
@@ -1430,10 +1455,23 @@ def translate(gen_bin, write=True):
             reqs.append((b, wit_scalar(T))); meta.append(("scalar", b, T))
         for pr in CAST_PROBES:
             reqs.append((b, wit_cast(pr[1], pr[2]))); meta.append(("cast", b, pr))
+    for b in BACKENDS:
+        for n in FLAG_SIZES:
+            reqs.append((b, wit_flags(n))); meta.append(("flags", b, n))
     outs = run_gen(gen_bin, reqs)
-    report = {"sites": [], "problems": [], "gen_failures": [], "lists": {}, "cast_lists": {}, "files_changed": []}
+    report = {"sites": [], "problems": [], "gen_failures": [], "lists": {}, "cast_lists": {}, "files_changed": [],
+              "flags": {"probes": 0, "generation_refused": [], "malformed": []}}
     scalar_lists, cast_lists = {}, {}
+    report["_raw"] = [(m, f) for m, f in zip(meta, outs)]       # not JSON: generated files per probe
     for (kind, b, arg), files in zip(meta, outs):
+        if kind == "flags":
+            report["flags"]["probes"] += 1
+            if "__err__" in files:
+                report["flags"]["generation_refused"].append({"backend": b, "flags": arg, "error": files["__err__"]})
+            else:
+                for fname, st in scan_flags(b, arg, files):
+                    report["flags"]["malformed"].append({"backend": b, "flags": arg, "file": fname, "statement": st})
+            continue
         if "__err__" in files:
             report["gen_failures"].append({"backend": b, "probe": arg if kind == "scalar" else arg[0], "error": files["__err__"]})
             continue
@@ -1514,4 +1552,4 @@ def translate(gen_bin, write=True):
 if __name__ == "__main__":
     gen = sys.argv[1] if len(sys.argv) > 1 else os.path.join(VERIF, ".build", "target", "debug", "gen-run")
     rep = translate(gen, write="--dry" not in sys.argv)
-    print(json.dumps({k: (v if k not in ("sites",) else len(v)) for k, v in rep.items()}, indent=1))
+    print(json.dumps({k: (v if k not in ("sites",) else len(v)) for k, v in rep.items() if k != "_raw"}, indent=1))
